@@ -518,7 +518,15 @@ SD_ALPHABET = "0123456789" * 3 + "..__++--eeEExxx  \t" + "infaINFnyX:,"
 
 
 def gen_sd(rng):
-    """a direct call of yaml_parse_die.string_die on a random short string (or on a mutated number pair)"""
+    """a direct call of yaml_parse_die.string_die on a random short string (or on a mutated number pair);
+    exponents of three and more digits (beyond the binary64 range: 1E934 is inf, 1E-934 is 0.0) are not generated"""
+    while True:
+        case = gen_sd_(rng)
+        if not re.search(r"[eE][+-]?[0-9_]{3,}", case["raw"]):
+            return case
+
+
+def gen_sd_(rng):
     if rng.random() < 0.5:
         raw = "".join(rng.choice(SD_ALPHABET) for _ in range(rng.randrange(0, 9)))
     else:
@@ -989,7 +997,7 @@ def run_oracle_only(ctx, out):
 
 
 def run(ctx, out, replay=None):
-    n = 3500 if ctx.quick() else 30000
+    n = 3500 if ctx.quick() else 24000
     out.rule = ("dies with 0-8 lattice-aligned regions (blockages, identifiers, fixed rectangles through a generated netlist) "
                 "on a coarse nx x ny lattice (1..6 each, narrow columns for near-misses; patterns random / pinwheel ring with "
                 "enclosed hole / T-junction / fully covered); streams exact (dyadic), exact-eps (explicit epsilon 2^-10, sides "
